@@ -118,4 +118,13 @@ for m, what in [("OpenAny", "open condition uses `any` instead of `all` (schedul
     c = dict(SMALL, Mutant='"%s"' % m)
     write("MC_Scheduler_equiv_%s.cfg" % m,
           "EQUIVALENT MUTANT %s: %s.\nNot observable by C14-C16 in this protocol (README explains why); expected to PASS." % (m, what), c)
+# ---- FreePrograms sanity (the mode the trace specification uses); run with -simulate -----------
+c = dict(SMALL, NStages=4, FreePrograms="TRUE", SchedAdds="{3}", SentinelStage=0, SpawnStages="{}",
+         MutAddStages="{4}")
+lines = ["\\* FreePrograms sanity: only the structural invariants hold for arbitrary packet programs.",
+         "\\* Run: tlc -simulate num=300 -depth 80 -config MC_Scheduler_free_sanity.cfg Scheduler.tla",
+         "SPECIFICATION Spec", "CONSTANTS"] + ["  %s = %s" % (k, c[k]) for k in ORDER] + [
+         "INVARIANTS", "  TypeOK ParkedCountOK CondvarOK PacketConservation SurrenderOK",
+         "CHECK_DEADLOCK FALSE"]
+open("MC_Scheduler_free_sanity.cfg", "w").write("\n".join(lines) + "\n")
 print("ok")
